@@ -471,7 +471,7 @@ class RaceSuite(Suite):
     nontrivial_rule = "at least two threads claim the promise and the interleaving contains a context switch between their atomic operations"
 
     def gen_cases(self, rng, tier):
-        L2, n3, L3x = (9, 2000, 0) if tier == "quick" else (13, 60000, 9)
+        L2, n3, L3x = (9, 2000, 0) if tier == "quick" else (12, 50000, 9)
         cases = []
         # every schedule prefix of length L2 for every 2-thread shape (each start(promise) performs 1-3 atomic operations
         # before the body, at most 6 in all: every interleaving of two contenders is a prefix of length <= 8 + default rest)
@@ -664,7 +664,7 @@ class JoinRaceSuite(RaceSuite):
     nontrivial_rule = "a thread blocks in wait()/join() and the interleaving contains a context switch between its subscription and the resolution"
 
     def gen_cases(self, rng, tier):
-        L2, L3, n3 = (9, 6, 1500) if tier == "quick" else (13, 9, 30000)
+        L2, L3, n3 = (9, 6, 1500) if tier == "quick" else (12, 8, 30000)
         cases = []
         for sh in T_PAIRS_J:
             for bits in itertools.product([0, 1], repeat=L2):
